@@ -5,7 +5,7 @@ from harness import core, aclhist
 
 PROP = "C17"
 TRACE_MODULES = ["Trace_Acl"]
-WEIGHTS = dict(SetType=1, EditEntry=1, SetPlatform=4, SetPortNr=2, SetProtocolNr=2, UngroupPorts=2, Resequence=3, Group=3, Ungroup=2, Sort=2, Reverse=1,
+WEIGHTS = dict(SetType=1, EditEntry=1, EditMembers=1, SetPlatform=4, SetPortNr=2, SetProtocolNr=2, UngroupPorts=2, Resequence=3, Group=3, Ungroup=2, Sort=2, Reverse=1,
                Permute=1, Pop=1, Append=1, Insert=1, TcamCount=1, DeleteNote=1, Copy=2, DataRoundTrip=1, Reparse=2, Shading=1,
                ShadowOf=1, DeleteShadow=2)
 
